@@ -1,11 +1,43 @@
 // C01: every homomorphic gate computes its Boolean function on every admissible input:
 //      fresh, bootstrapped, CONSTANT, and phases pushed exactly to +-1/32 from +-1/8 with every sign combination.
 #include "gates.hpp"
+#include <sstream>
 VH_MAIN_GLOBALS
 using namespace vh;
 
 static Rng rng;
 static const int64_t E32 = 1ll << 27;   // 1/32 of the torus in units of 2^-32
+
+// program start-up: the library may be used from the constructor of a namespace-scope object of the application, i.e. before
+// main() and, in a statically linked program whose own objects come first on the link line (as the drivers are linked), before
+// the dynamic initialisers of the library's translation units have run. With VH_PREMAIN set, this object generates a small
+// key set and evaluates every gate on every input tuple during static initialisation; main() reports what it saw.
+struct PreMain {
+    int ran = 0, wrong = 0, evals = 0; char first_wrong[48]; int fa = 0, fb = 0, fc = 0;
+    PreMain() {
+        first_wrong[0] = 0;
+        if (!getenv("VH_PREMAIN")) return;
+        ran = 1;
+        uint32_t sd[2] = {20260928u, 7u}; tfhe_random_generator_setSeed(sd, 2);
+        PSet ps(12, 1024, 1, 3, 7, 5, 3, ldexp(1., -20), ldexp(1., -30));
+        TFheGateBootstrappingSecretKeySet *sk = new_random_gate_bootstrapping_secret_keyset(ps.gb);
+        LweSample *x = new_gate_bootstrapping_ciphertext_array(4, ps.gb);
+        // (every other gate with a cloud key that went through export and import, also before main)
+        std::ostringstream os; export_tfheGateBootstrappingCloudKeySet_toStream(os, &sk->cloud);
+        std::istringstream is(os.str()); TFheGateBootstrappingCloudKeySet *imported = new_tfheGateBootstrappingCloudKeySet_fromStream(is);
+        for (int g = 0; g < G_COUNT; g++) for (int v = 0; v < 8; v++) {
+            if (GATES[g].arity < 3 && (v & 4)) continue;
+            if (GATES[g].arity < 2 && (v & 2)) continue;
+            for (int i = 0; i < 3; i++) bootsSymEncrypt(x + i, (v >> i) & 1, sk);
+            gate_eval(g, x + 3, x, x + 1, x + 2, v & 1, (g & 1) ? imported : &sk->cloud);
+            evals++;
+            if (bootsSymDecrypt(x + 3, sk) != gate_truth(g, v & 1, (v >> 1) & 1, (v >> 2) & 1)) { if (!wrong) { snprintf(first_wrong, sizeof first_wrong, "%s", GATES[g].name); fa = v & 1; fb = (v >> 1) & 1; fc = (v >> 2) & 1; } wrong++; }
+        }
+        delete_gate_bootstrapping_cloud_keyset(imported);
+        delete_gate_bootstrapping_ciphertext_array(4, x); delete_gate_bootstrapping_secret_keyset(sk);
+    }
+};
+static PreMain premain;
 
 enum InClass { FRESH, BOOT, CONST, INJ_P, INJ_M, INJ_P1, INJ_M1, INJ_U, NCLASS };
 static const char *cls_name[] = {"fresh", "bootstrapped", "constant", "inj+1/32", "inj-1/32", "inj+(1/32-1ulp)", "inj-(1/32-1ulp)", "inj-uniform"};
@@ -106,6 +138,11 @@ int main(int argc, char **argv) {
     Args args(argc, argv);
     out.open(args.s("out", "-"));
     install_crash_handler();
+    if (premain.ran) {
+        out.evaluations += premain.evals;
+        if (premain.wrong) out.viol(std::string("gate:wrong-output:") + premain.first_wrong, J().s("gate", premain.first_wrong).s("history", "gates evaluated during static initialisation of the program (before main), statically linked, program objects first").i("wrong", premain.wrong).i("of", premain.evals).i("a", premain.fa).i("b", premain.fb).i("c", premain.fc));
+        out.cell(std::string(flavor_name()) + "/" + backend_name() + ":all-gates-before-main(static initialisation)", premain.evals);
+    }
     uint64_t seed = args.i("seed", 1);
     int lambda = args.i("lambda", 128);
     std::string level = args.s("level", "quick");   // lite | quick | full
